@@ -1,7 +1,7 @@
 '''C20 - a written report contains every section and result exactly once.'''
 import ast
 
-from ..rules import reportfs, extcmd
+from ..rules import reportfs, extcmd, patterns
 from ..astutil import txt, call_name
 from ..mutate import (Variant, edit_module, find_func, replace_first,
                       remove_stmt, insert_stmt, parse_stmts, parse_expr)
@@ -58,9 +58,10 @@ def check(ctx):
     ctx.run(reportfs.check_page_suffix)
     ctx.run(extcmd.check_sanitize, scope=('report-root',), floor=1)
     ctx.run(extcmd.check_sanitizer_body)
+    ctx.run(patterns.check_patterns, ID)
 
 
-def variants(program):
+def _variants(program):
     out = []
 
     def add(name, kind, editor, expect=None, quick=False, note='',
@@ -321,3 +322,8 @@ def variants(program):
         note="'Fe56, 0.1 MeV' and 'Fe56, 0.5 MeV' -> 'Fe56, 0.rst'")
 
     return out
+
+
+def variants(program):
+    from ..variants import patterns as _pv
+    return list(_variants(program)) + _pv.variants(program, ID)
